@@ -360,7 +360,7 @@ def bars_input(pt: "Point", name, idx):
 
 
 def equivalent(a: Expr, b: Expr, trials: int = 24, seed: int = 0, tol: float = 1e-9, positive_syms=(),
-               nrows: int = 3, integer_inputs=False, input_fn=None, degenerate=False) -> Tuple[Optional[bool], Optional[dict]]:
+               nrows: int = 3, integer_inputs=False, input_fn=None, degenerate=False, sym_fn=None) -> Tuple[Optional[bool], Optional[dict]]:
     """(True, None) equal on all trials; (False, witness) differ; (None, reason) not evaluable.
     degenerate=True adds as many trials again on inputs with exact and near ties between coordinates (points on the
     diagonal, repeated points, zeros): the places where a condition that selects rows changes its verdict."""
@@ -369,6 +369,9 @@ def equivalent(a: Expr, b: Expr, trials: int = 24, seed: int = 0, tol: float = 1
         pt = Point(rng, nrows=nrows, positive_syms=positive_syms, integer_inputs=integer_inputs and k % 2 == 0,
                    input_fn=input_fn)
         pt.degenerate = degenerate and k >= trials
+        if sym_fn is not None:
+            # the caller places some symbols itself on some trials (boundary values: a quotient a hair above an integer)
+            sym_fn(pt, k)
         try:
             va = ev(a, pt)
             vb = ev(b, pt)
